@@ -19,7 +19,7 @@ H == Trace[h]
 SC == [N |-> H.N, dur |-> H.dur, vod0 |-> H.vod0, TS |-> H.TS, loopMS |-> H.loopMS,
        tsbd |-> H.tsbd, ato |-> H.ato, snr |-> H.snr]
 NowU(x) == [w |-> x[1], r |-> x[2] * H.TS]
-None == [ok |-> FALSE, E |-> <<>>, first |-> <<-1, -1>>, last |-> <<-1, -1>>, now |-> TZero, pt |-> TZero, dig |-> "",
+None == [ok |-> FALSE, after |-> FALSE, E |-> <<>>, first |-> <<-1, -1>>, last |-> <<-1, -1>>, now |-> TZero, pt |-> TZero, dig |-> "",
          hasSn |-> FALSE, snp |-> <<0, 0>>, tmplD |-> 0, tmplTS |-> 1, atoDecl |-> 0]
 
 Init == l = 1 /\ h = 1 /\ cur = None /\ prev = None /\ MonitorInit
@@ -33,14 +33,21 @@ Timeline == H.mode \in {"time", "tlnr"}
 Mpd == /\ e.ev = "mpd"
        /\ Clause("C02.mpd_served", e.st = 200, <<"status", e.st>>)
        /\ IF e.st # 200 THEN cur' = None /\ prev' = prev
-          ELSE LET now   == NowU(e.now)
+          ELSE LET rnow  == NowU(e.now)
+                   stopU == MsPair(SC, H.stop * 1000)
+                   after == H.stop >= 0 /\ TLt(stopU, rnow)          \* C05.stop: the request instant is after the stop time
+                   now   == IF after THEN stopU ELSE rnow             \* the presentation is frozen at the stop time
                    E     == IF Timeline THEN Expand(SC, e.S) ELSE <<>>
                    first == IF Len(E) > 0 THEN IdxOfStart(SC, E[1].t) ELSE <<-1, -1>>
                    last  == IF Len(E) > 0 /\ first[1] >= 0 THEN Plus(SC, first, Len(E) - 1) ELSE <<-1, -1>>
                    pt    == NowU(e.pt)
                    had   == prev.ok
                IN
-               /\ Clause("C02.attrs", e.astOk /\ e.tsbdDecl = H.tsbd * 1000, <<"astOk", e.astOk, "tsbd_ms", e.tsbdDecl>>)
+               /\ Clause("C02.attrs", e.astOk /\ (~after => e.tsbdDecl = H.tsbd * 1000), <<"astOk", e.astOk, "tsbd_ms", e.tsbdDecl>>)
+               \* C05.stop: after the configured stop time the MPD is static with duration stop - start
+               /\ Clause("C05.stop", IF after THEN e.type = "static" /\ e.mpdur = H.stop * 1000 /\ e.tsbdDecl = -1 /\ ~e.hasMup
+                                     ELSE e.type = "dynamic",
+                         <<"type", e.type, "mediaPresentationDuration_ms", e.mpdur, "tsbd_ms", e.tsbdDecl, "mup", e.hasMup, "after_stop", after>>)
                /\ IF Timeline THEN
                     /\ Clause("C02.contig", \A j \in 1..Len(E) : E[j].gapless, "explicit @t does not continue the previous entry")
                     /\ Clause("C02.grid", Len(E) > 0 => (first[1] >= 0 /\ OnGrid(SC, E, first)),
@@ -65,9 +72,10 @@ Mpd == /\ e.ev = "mpd"
                     /\ Clause("C05.forward.last", (Timeline /\ prev.last[1] >= 0) => (last[1] >= 0 /\ PairLeq(prev.last, last)),
                               <<"last_before", prev.last, "last", last>>)
                     /\ Clause("C05.pt_mono", TLeq(prev.pt, pt), <<"pt_before", prev.pt, "pt", pt>>)
-                    /\ Clause("C05.pt_same_content", TEq(prev.pt, pt) => prev.dig = e.dig,
+                    \* (the switch to a static MPD at the stop time is a change by design: not judged here)
+                    /\ Clause("C05.pt_same_content", (TEq(prev.pt, pt) /\ prev.after = after) => prev.dig = e.dig,
                               <<"pt", e.pt, "first_changed", prev.first # first, "last_changed", prev.last # last>>)
-                    /\ Clause("C05.number_static", (H.mode = "number") => prev.dig = e.dig, "Number-template MPD changed")
+                    /\ Clause("C05.number_static", (H.mode = "number" /\ prev.after = after) => prev.dig = e.dig, "Number-template MPD changed")
                   ELSE TRUE
                \* publishTime = instant of the most recent change at the live edge: the availability instant of the
                \* newest listed segment (within 1 ms: xs:dateTime has ms resolution), or AST when nothing is listed
@@ -77,7 +85,7 @@ Mpd == /\ e.ev = "mpd"
                                      a0 == IF a.w < 0 THEN TZero ELSE a
                                  IN TLt(TSub(P(SC), a0, pt), MsPair(SC, 1)) /\ TLt(TSub(P(SC), pt, a0), MsPair(SC, 1)),
                          <<"pt", e.pt, "avail_of_last", IF Len(E) > 0 /\ first[1] >= 0 THEN Avail(SC, last[1], last[2]) ELSE TZero>>)
-               /\ cur' = [ok |-> TRUE, E |-> E, first |-> first, last |-> last, now |-> now, pt |-> pt, dig |-> e.dig,
+               /\ cur' = [ok |-> TRUE, after |-> after, E |-> E, first |-> first, last |-> last, now |-> now, pt |-> pt, dig |-> e.dig,
                           hasSn |-> e.hasSn, snp |-> e.snp, tmplD |-> e.tmplD, tmplTS |-> e.tmplTS, atoDecl |-> e.atoDecl]
                /\ prev' = cur'
        /\ UNCHANGED h
